@@ -8,7 +8,10 @@ package main
 //        see exactly the codes, keys and rates the library sees:
 //          ( x<state> ( view ) )       state: calculated | parsed-only (calculation failed) ; or ( err parse )
 //        view = x<regime> ( x<addon> ... ) x<short schema> ( x<tag> ... )
-//               ( ( x<path> x<cat> x<rate> x<country> ( ( x<key> x<value> ) ... ) ) ... )     every tax.Combo
+//               ( ( x<path> x<cat> x<rate> x<country> ( ( x<key> x<value> ) ... ) ) ... )     every tax.Combo, and every
+//                                                           other member that names a tax CATEGORY of the document's regime
+//                                                           (bill.Tax.PricesInclude, `tax/prices_include`): a category
+//                                                           reference without rate, country override or extensions
 //               ( ( x<path> x<key> x<value> ) ... )         every other tax.Extensions map entry
 //               ( ( x<path> x<code> ) ... )                 every currency.Code
 //               ( ( x<path> x<kind> x<code> ) ... )         every country code; kind iso | tax | regime (a party's $regime) | combo (a combo's country)
@@ -40,6 +43,7 @@ import (
 	"strings"
 
 	"github.com/invopop/gobl"
+	"github.com/invopop/gobl/bill"
 	"github.com/invopop/gobl/cbc"
 	"github.com/invopop/gobl/currency"
 	"github.com/invopop/gobl/l10n"
@@ -66,6 +70,7 @@ var (
 	c18TISO     = reflect.TypeOf(l10n.ISOCountryCode(""))
 	c18TTax     = reflect.TypeOf(l10n.TaxCountryCode(""))
 	c18TObject  = reflect.TypeOf(schema.Object{})
+	c18TBillTax = reflect.TypeOf(bill.Tax{})
 	c18MaxDepth = 40
 )
 
@@ -159,6 +164,12 @@ func (vw *c18View) walk(v reflect.Value, path string, depth int) {
 			vw.walk(v.Elem(), path, depth+1)
 		}
 	case reflect.Struct:
+		if t == c18TBillTax {
+			// `prices_include` names a tax category (cbc.Code): a category reference under the document's regime
+			if pi := v.Interface().(bill.Tax).PricesInclude; pi != "" {
+				vw.combos = append(vw.combos, VL(VS(c18Join(path, "prices_include")), VS(string(pi)), VS(""), VS(""), VL()))
+			}
+		}
 		for i := 0; i < t.NumField(); i++ {
 			f := t.Field(i)
 			if f.PkgPath != "" && !f.Anonymous { // unexported
